@@ -8,17 +8,24 @@ CT = "c01case"
 
 MANIFEST = dict(
     text=("Model: Gallina transcription of the pyparsing grammar (ordered choice, pyparsing's white-space skipping rules, "
-          "NotAny(White) guards, aborting parse actions) with the table's symbols, isotopes and ion charges regenerated "
-          "from /repo.  Spec: derivation trees of the documented grammar, render, and the guide's denotation (counts "
-          "multiply their group, repeats add).  Theorems (Props/C01.v): the composition of any parsed structure is the "
-          "count-weighted sum over its nesting (unbounded depth); the parser-acceptance and rejection theorems proved so "
-          "far are listed in the evidence file (the ones named _partial state their restriction).  Tie: strings rendered "
+          "NotAny(White) guards, aborting parse actions; compound AND mixture grammar) with the table's symbols, isotopes "
+          "and ion charges regenerated from /repo.  Spec: derivation trees of the documented grammar, render, and the "
+          "guide's denotation (counts multiply their group, repeats add).  Theorems (Props/C01.v, 32 statements, all "
+          "closed under the global context): C01_accept - for EVERY table and every well-formed derivation tree of any "
+          "nesting depth, the parser model accepts render(t), consumes it entirely, and the structure it returns has "
+          "exactly the atom counts, net charge and density the Spec assigns (structural induction over the nested tree, "
+          "fuel shown sufficient); the unambiguity side conditions of well-formedness are proved necessary "
+          "(C01_side_conditions_needed); rejection theorems at any element position and nesting depth: unknown symbol -> "
+          "ValueError, undefined isotope -> KeyError, isotope tag on D/T -> TypeError, undefined charge -> ValueError, "
+          "unbalanced or inserted parentheses, '@' without number, leading-zero counts, malformed isotope/ion tags and "
+          "left-over text are never accepted; fuel independence and proper-suffix consumption.  Tie: strings rendered "
           "from random derivation trees (all elements/isotopes/ions, all count spellings and separators, nesting) and nine "
           "kinds of malformation, public and private table: implementation vs parser model (structure, exact counts, "
-          "density) AND implementation vs Spec denotation of the tree (atoms, charge, density) evaluated in Coq."),
-    note="Modelled not verified: pyparsing's engine (modelled as PEG with its white-space rules), Python float(), recursion limit.",
-    technique="Coq proof by structural induction on derivation trees/structures + differential run of parser model and Spec denotation",
-    ref="DESIGN.md section 7 C01")
+          "density, error kind) AND implementation vs Spec denotation of the tree (atoms, charge, density) evaluated in Coq."),
+    note=("Modelled not verified: pyparsing's engine (modelled as PEG with its white-space rules), Python float(), the "
+          "recursion limit.  'text after a density tag without n/i marker' (NaCl@2.16x) is covered by the tie only."),
+    technique="Coq proof by structural induction on derivation trees (unbounded nesting) + differential run of parser model and Spec denotation",
+    ref="DESIGN.md section 7 C01, section 11")
 
 
 def run(ctx):
